@@ -212,6 +212,23 @@ impl Monitor for C14 {
                     }
                 }
             }
+            // propagation makes the global pause "in force for a group": afterwards the group's
+            // cached pause must be the global one (flag and start), whatever was cached before
+            if ix.tag == "propagate_fee_state" {
+                let gk = ix.accounts[1].pubkey;
+                if let (Some(g1), Some(fs)) = (model::group_of(b, &gk), model::fee_state_of(b)) {
+                    let c = g1.panic_state_cache;
+                    self.cov.eval(format!("propagate|f{}|was{}", fs.panic_state.pause_flags & 1,
+                        model::group_of(a, &gk).map(|g| g.panic_state_cache.pause_flags & 1).unwrap_or(0)));
+                    if c.pause_flags != fs.panic_state.pause_flags
+                        || (c.pause_flags & 1 != 0 && c.pause_start_timestamp != fs.panic_state.pause_start_timestamp)
+                    {
+                        out.push(viol("C14", "propagation_left_stale_pause_in_group", ix.tag,
+                            format!("group {gk}: cached flag {} start {} but global flag {} start {}", c.pause_flags, c.pause_start_timestamp,
+                                fs.panic_state.pause_flags, fs.panic_state.pause_start_timestamp), idx));
+                    }
+                }
+            }
             // protocol pause: while in force for a group nothing moves funds or changes positions
             for (gk, g) in model::all_groups(a) {
                 let c = g.panic_state_cache;
